@@ -23,6 +23,10 @@ type HEvent struct {
 	Ses     string `json:"ses"`  // "", "unset" or decimal
 	Type    string `json:"type"` // LOGIN, CRED_DISP, or the name of another record type
 	PIDText string `json:"pid_text"`
+	// what the record carries beyond that (fields.go); none of it may lead the correlator
+	Seq    uint32            `json:"seq,omitempty"`   // kernel serial (aucoalesce.Event.Sequence)
+	TSms   int64             `json:"ts_ms,omitempty"` // the record's own timestamp, unix ms (0: 1700000000 s + id)
+	Fields map[string]string `json:"fields,omitempty"`
 }
 
 type HOp struct {
@@ -47,6 +51,9 @@ type History struct {
 	Plans  map[string]SessPlan `json:"plans"`
 	Mode   string              `json:"mode"`
 	Debug  bool                `json:"debug_logging,omitempty"` // the correlator gets a logger with DEBUG enabled
+	// how the serials / timestamps of the records were generated (fields.go); informational, the values are in the events
+	Serials string `json:"serials,omitempty"`
+	Stamps  string `json:"stamps,omitempty"`
 }
 
 var otherTypes = []string{"USER_START", "USER_END", "SYSCALL", "USER_ACCT", "CRED_ACQ", "USER_CMD", "EXECVE", "USER_LOGIN", "CRED_REFR", "USER_AUTH"}
@@ -308,8 +315,369 @@ func (o HOp) String() string {
 	case "login":
 		return fmt.Sprintf("login#%d(pid %d,at %d%s)", o.Login.ID, o.Login.PID, o.Login.AtIdx, o.Login.Invalid)
 	case "audit":
-		return fmt.Sprintf("ev#%d(ses %q,%s,pid %q)", o.Event.ID, o.Event.Ses, o.Event.Type, o.Event.PIDText)
+		extra := ""
+		if o.Event.Seq != 0 {
+			extra += fmt.Sprintf(",serial %d", o.Event.Seq)
+		}
+		if v, ok := o.Event.Fields["old-ses"]; ok && v != unsetID {
+			extra += ",old-ses " + v
+		}
+		return fmt.Sprintf("ev#%d(ses %q,%s,pid %q%s)", o.Event.ID, o.Event.Ses, o.Event.Type, o.Event.PIDText, extra)
 	default:
 		return fmt.Sprintf("%s(cut %d)", o.Kind, o.Cut)
 	}
+}
+
+// ---------- further history families (each drawn from a generator of its own, so that adding one leaves the
+// histories of the basic modes what they were) ----------
+
+// genPending: 2-4 sessions waiting for their sshd logins AT THE SAME TIME, each holding its own number of events
+// (0-12; with big: up to 40 and around the sizes at which a Go slice grows) before its login arrives; the logins
+// arrive in any order.  Varied independently: the order in which the sessions are OPENED, which of them holds
+// many events, which login comes first, and whether the sessions fill up one after the other or in turns.  What one
+// session holds must never show up under another session's identity (C01), and every session's events come out
+// once, in order (C02) - whatever the neighbours hold.
+func genPending(r *hutil.Rand, big bool) History {
+	g := &genState{r: r, nextSid: 1 + r.Intn(50), nextPid: 100 + r.Intn(1000)}
+	h := History{Budget: -1, Plans: map[string]SessPlan{}, Mode: "pending"}
+	if big {
+		h.Mode = "pending-big"
+	}
+	type sess struct {
+		open  HOp
+		held  []HOp
+		login HOp
+		tail  []HOp
+	}
+	growth := []int{1, 2, 3, 4, 5, 7, 8, 9, 15, 16, 17, 31, 32, 33, 40}
+	k := 2 + r.Intn(3)
+	ss := make([]*sess, k)
+	for i := range ss {
+		sid := strconv.Itoa(g.nextSid)
+		g.nextSid += 1 + r.Intn(3)
+		pid := g.nextPid
+		g.nextPid += 1 + r.Intn(5)
+		n := 0
+		switch r.Intn(3) {
+		case 0:
+			n = r.Intn(4)
+		case 1:
+			n = 4 + r.Intn(9)
+		default:
+			n = 9 + r.Intn(4)
+			if big {
+				n = hutil.Pick(r, growth)
+				if r.Bool() {
+					n = 9 + r.Intn(32)
+				}
+			}
+		}
+		s := &sess{open: g.ev(sid, "LOGIN", strconv.Itoa(pid))}
+		for j := 0; j < n; j++ {
+			s.held = append(s.held, g.ev(sid, hutil.Pick(r, otherTypes), strconv.Itoa(pid+1000+r.Intn(50))))
+		}
+		s.login = g.login(pid, "")
+		for j := r.Intn(4); j > 0; j-- {
+			s.tail = append(s.tail, g.ev(sid, hutil.Pick(r, otherTypes), strconv.Itoa(pid+1000+r.Intn(50))))
+		}
+		if r.Bool() {
+			s.tail = append(s.tail, g.ev(sid, "CRED_DISP", strconv.Itoa(pid)))
+			if r.Chance(1, 4) {
+				s.tail = append(s.tail, g.ev(sid, hutil.Pick(r, otherTypes), strconv.Itoa(pid+1000)))
+			}
+		}
+		ss[i] = s
+		h.Plans[sid] = SessPlan{Sid: sid, PID: pid, HasLoginRec: true, LoginID: s.login.Login.ID, WF: true}
+	}
+	// the order in which the sessions are opened is independent of their ids, pids and sizes
+	for i := len(ss) - 1; i > 0; i-- {
+		j := r.Intn(i + 1)
+		ss[i], ss[j] = ss[j], ss[i]
+	}
+	bursts := func(scripts [][]HOp, maxBurst int) []HOp {
+		var out []HOp
+		idx := make([]int, len(scripts))
+		for {
+			var live []int
+			for i := range scripts {
+				if idx[i] < len(scripts[i]) {
+					live = append(live, i)
+				}
+			}
+			if len(live) == 0 {
+				return out
+			}
+			i := hutil.Pick(r, live)
+			for n := 1 + r.Intn(maxBurst); n > 0 && idx[i] < len(scripts[i]); n-- {
+				out = append(out, scripts[i][idx[i]])
+				idx[i]++
+			}
+		}
+	}
+	maxBurst := hutil.Pick(r, []int{1, 3, 12, 45})
+	var ops []HOp
+	switch r.Intn(3) {
+	case 0: // every session a script of its own, merged
+		var scripts [][]HOp
+		for _, s := range ss {
+			sc := append([]HOp{s.open}, s.held...)
+			sc = append(append(sc, s.login), s.tail...)
+			scripts = append(scripts, sc)
+		}
+		ops = bursts(scripts, maxBurst)
+	case 1: // all sessions opened first, then merged
+		var scripts [][]HOp
+		for _, s := range ss {
+			ops = append(ops, s.open)
+			sc := append(append([]HOp{}, s.held...), s.login)
+			scripts = append(scripts, append(sc, s.tail...))
+		}
+		ops = append(ops, bursts(scripts, maxBurst)...)
+	default: // all opened, then everything that is held, then the logins (in an order of their own) with the rest
+		var held, rest [][]HOp
+		for _, s := range ss {
+			ops = append(ops, s.open)
+			held = append(held, s.held)
+		}
+		ops = append(ops, bursts(held, maxBurst)...)
+		for _, i := range permOf(r, len(ss)) {
+			rest = append(rest, append([]HOp{ss[i].login}, ss[i].tail...))
+		}
+		if r.Bool() {
+			ops = append(ops, bursts(rest, 2)...)
+		} else {
+			for _, sc := range rest {
+				ops = append(ops, sc...)
+			}
+		}
+	}
+	if r.Chance(1, 3) {
+		// cleanup calls whose cut-off lies before everything: they discard nothing
+		for n := 1 + r.Intn(2); n > 0; n-- {
+			pos := r.Intn(len(ops) + 1)
+			c := HOp{Kind: hutil.Pick(r, []string{"clean_sess", "clean_sess", "clean_logins"}), Cut: 0}
+			ops = append(ops[:pos], append([]HOp{c}, ops[pos:]...)...)
+		}
+	}
+	for i := range ops {
+		if ops[i].Kind == "login" {
+			l := *ops[i].Login
+			l.AtIdx = i
+			if i > 0 && r.Chance(1, 3) {
+				l.AtIdx = r.Intn(i + 1)
+			}
+			ops[i].Login = &l
+		}
+	}
+	h.Ops = ops
+	h.Debug = r.Chance(1, 3)
+	return h
+}
+
+func permOf(r *hutil.Rand, n int) []int {
+	p := make([]int, n)
+	for i := range p {
+		p[i] = i
+	}
+	for i := n - 1; i > 0; i-- {
+		j := r.Intn(i + 1)
+		p[i], p[j] = p[j], p[i]
+	}
+	return p
+}
+
+// genRelogin (C16): the sshd pid of a session logs in two or three times BEFORE the session's LOGIN record arrives (a
+// repeated line; a pid re-used by a connection whose audit session never showed up): every login but the last is
+// superseded while it waits.  Cleanup calls whose cut-off falls BETWEEN the log times of an earlier login and the last
+// one (and others anywhere) come before the LOGIN record: the last login is younger than such a cut-off, so it must
+// still be waiting afterwards, and its session - arriving inside the window - must be correlated.  By construction the
+// session's partner is the LAST login of its pid (what the correlator does by overwriting the waiting entry;
+// Model/Tracker.v: aset on [parked]).  Other sessions run alongside.
+func genRelogin(r *hutil.Rand) History {
+	g := &genState{r: r, nextSid: 1 + r.Intn(50), nextPid: 100 + r.Intn(1000)}
+	h := History{Budget: -1, Plans: map[string]SessPlan{}, Mode: "relogin"}
+	var scripts [][]HOp
+	type mark struct{ first, last int } // login ids of one pid: an earlier one and the last one
+	var marks []mark
+	cutFor := map[int]int{} // index into marks, keyed by a placeholder cut value (negative)
+	for k := 1 + r.Intn(3); k > 0; k-- {
+		sid := strconv.Itoa(g.nextSid)
+		g.nextSid += 1 + r.Intn(3)
+		pid := g.nextPid
+		g.nextPid += 1 + r.Intn(5)
+		if k > 1 && r.Chance(1, 3) {
+			// an ordinary session alongside
+			s, lid := g.sessionScript(sid, pid, true, true, r.Bool(), r.Intn(4), 0, -1)
+			scripts = append(scripts, s)
+			h.Plans[sid] = SessPlan{Sid: sid, PID: pid, HasLoginRec: true, LoginID: lid, WF: true}
+			continue
+		}
+		var sc []HOp
+		first := -1
+		for n := 1 + r.Intn(2); n > 0; n-- {
+			l := g.login(pid, "")
+			if first < 0 || r.Bool() {
+				first = l.Login.ID
+			}
+			sc = append(sc, l)
+			if r.Chance(1, 4) {
+				sc = append(sc, HOp{Kind: "clean_sess", Cut: 0})
+			}
+		}
+		last := g.login(pid, "")
+		sc = append(sc, last)
+		marks = append(marks, mark{first, last.Login.ID})
+		for n := r.Intn(3); n > 0; n-- {
+			c := HOp{Kind: hutil.Pick(r, []string{"clean_logins", "clean_logins", "clean_sess"}), Cut: -len(marks)}
+			cutFor[c.Cut] = len(marks) - 1
+			sc = append(sc, c)
+		}
+		evs, _ := g.sessionScript(sid, pid, false, true, r.Chance(2, 3), r.Intn(4), 0, -1)
+		sc = append(sc, evs...)
+		scripts = append(scripts, sc)
+		h.Plans[sid] = SessPlan{Sid: sid, PID: pid, HasLoginRec: true, LoginID: last.Login.ID, WF: true}
+	}
+	ops := interleave(r, scripts)
+	// log times: a superseded login was logged at or before its delivery; the last login of a pid strictly after
+	// the earlier ones' log times; the marked cut-offs fall between
+	idxOf := map[int]int{}
+	for i := range ops {
+		if ops[i].Kind == "login" {
+			idxOf[ops[i].Login.ID] = i
+		}
+	}
+	at := map[int]int{}
+	for i := range ops {
+		if ops[i].Kind == "login" {
+			l := *ops[i].Login
+			l.AtIdx = i
+			ops[i].Login = &l
+			at[l.ID] = i
+		}
+	}
+	for _, m := range marks {
+		// the earlier login may have been logged well before it was delivered
+		if i := idxOf[m.first]; i > 0 && r.Bool() {
+			l := *ops[i].Login
+			l.AtIdx = r.Intn(i + 1)
+			ops[i].Login = &l
+			at[m.first] = l.AtIdx
+		}
+		// the last one at its delivery, or anywhere after the earlier one's log time
+		if i := idxOf[m.last]; r.Chance(1, 3) {
+			l := *ops[i].Login
+			l.AtIdx = at[m.first] + 1 + r.Intn(i-at[m.first])
+			ops[i].Login = &l
+			at[m.last] = l.AtIdx
+		}
+	}
+	for i := range ops {
+		if ops[i].Kind != "clean_sess" && ops[i].Kind != "clean_logins" {
+			continue
+		}
+		if mi, ok := cutFor[ops[i].Cut]; ok && ops[i].Cut < 0 {
+			m := marks[mi]
+			// older than the cut-off: the earlier login; not older: the last one
+			lo, hi := at[m.first]+1, at[m.last]
+			ops[i].Cut = lo + r.Intn(hi-lo+1)
+			if r.Chance(1, 5) {
+				ops[i].Cut = r.Intn(i + 1) // anywhere
+			}
+			if ops[i].Cut > i {
+				ops[i].Cut = i
+			}
+		}
+	}
+	h.Ops = ops
+	h.Debug = r.Chance(1, 3)
+	return h
+}
+
+// genOvertake (C09): chains of 2-3 sessions opened one after the other by the SAME sshd pid (the pid is re-used after
+// the earlier process has ended).  The two streams travel through different pipes, so the sshd line of the NEW process
+// may overtake the LAST audit records of the ended session: the new login arrives anywhere after the previous login
+// (same pipe) and after the previous session's LOGIN record - before the old session's credential-disposal record,
+// between its last records, after them, or inside the new session's records.  By construction session c of a chain
+// belongs to login c.  Other chains and plain sessions run alongside; stray late records of ended sessions too.
+func genOvertake(r *hutil.Rand) History {
+	g := &genState{r: r, nextSid: 1 + r.Intn(50), nextPid: 100 + r.Intn(1000)}
+	h := History{Budget: -1, Plans: map[string]SessPlan{}, Mode: "overtake"}
+	var scripts [][]HOp
+	for k := 1 + r.Intn(3); k > 0; k-- {
+		pid := g.nextPid
+		g.nextPid += 1 + r.Intn(5)
+		if k > 1 && r.Chance(1, 3) {
+			sid := strconv.Itoa(g.nextSid)
+			g.nextSid += 1 + r.Intn(3)
+			s, lid := g.sessionScript(sid, pid, true, true, r.Bool(), r.Intn(4), 0, -1)
+			scripts = append(scripts, s)
+			h.Plans[sid] = SessPlan{Sid: sid, PID: pid, HasLoginRec: true, LoginID: lid, WF: true}
+			continue
+		}
+		var chain []HOp
+		prevLogin, prevRec := -1, -1 // positions in chain of the previous session's login and LOGIN record
+		n := 2 + r.Intn(2)
+		for c := 0; c < n; c++ {
+			sid := strconv.Itoa(g.nextSid)
+			g.nextSid += 1 + r.Intn(3)
+			lastOne := c == n-1
+			nEv := r.Intn(4)
+			evs, _ := g.sessionScript(sid, pid, false, true, false, nEv, 0, -1)
+			if !lastOne || r.Bool() {
+				if r.Bool() {
+					evs = append(evs, g.ev(sid, "USER_END", strconv.Itoa(pid)))
+				}
+				evs = append(evs, g.ev(sid, "CRED_DISP", strconv.Itoa(pid)))
+			}
+			l := g.login(pid, "")
+			base := len(chain)
+			lo := 0
+			if c > 0 {
+				lo = prevLogin + 1
+				if prevRec+1 > lo {
+					lo = prevRec + 1
+				}
+			} else {
+				lo = base
+			}
+			pos := lo + r.Intn(base+len(evs)-lo+1)
+			if c > 0 && lo < base && r.Bool() {
+				pos = lo + r.Intn(base-lo) // before the previous session's last record
+			}
+			chain = append(chain, evs...)
+			chain = append(chain[:pos], append([]HOp{l}, chain[pos:]...)...)
+			prevLogin, prevRec = pos, base
+			if pos <= base {
+				prevRec = base + 1
+			}
+			h.Plans[sid] = SessPlan{Sid: sid, PID: pid, HasLoginRec: true, LoginID: l.Login.ID, WF: true}
+			if !lastOne && r.Chance(1, 3) {
+				// a stray late record of the ended session, anywhere later
+				scripts = append(scripts, []HOp{g.ev(sid, hutil.Pick(r, otherTypes), strconv.Itoa(pid+1000))})
+			}
+		}
+		scripts = append(scripts, chain)
+	}
+	ops := interleave(r, scripts)
+	if r.Chance(1, 2) {
+		// cleanup calls whose cut-off lies before everything: they discard nothing
+		for n := 1 + r.Intn(2); n > 0; n-- {
+			pos := r.Intn(len(ops) + 1)
+			c := HOp{Kind: hutil.Pick(r, []string{"clean_sess", "clean_logins"}), Cut: 0}
+			ops = append(ops[:pos], append([]HOp{c}, ops[pos:]...)...)
+		}
+	}
+	for i := range ops {
+		if ops[i].Kind == "login" {
+			l := *ops[i].Login
+			l.AtIdx = i
+			if i > 0 && r.Chance(1, 3) {
+				l.AtIdx = r.Intn(i + 1)
+			}
+			ops[i].Login = &l
+		}
+	}
+	h.Ops = ops
+	h.Debug = r.Chance(1, 3)
+	return h
 }
